@@ -63,6 +63,9 @@ type Edge struct {
 	// Raw, when set, replaces the mention altogether (number, missing, non-URL string ...) ; To is nil then.
 	Raw  any
 	HasRaw bool
+	// Keep: never degrade this embedded mention to a reference and do not normalise it away: an embedded same-host copy of
+	// a node whose home no longer serves it is used as is by servitor (and is valid), while references to it fail
+	Keep bool
 }
 
 type Coll struct {
@@ -178,7 +181,7 @@ func (w *World) edgeJSON(e *Edge, servingHost string, depth int) any {
 		delete(m, "id")
 		return m
 	default: // embed
-		if depth >= 2 && e.Lie == "" {
+		if depth >= 2 && e.Lie == "" && !e.Keep {
 			// deep copies degrade to references; for honest mentions of live nodes this is equivalent (see Normalize)
 			return e.To.ID
 		}
@@ -360,7 +363,7 @@ func (w *World) collJSON(c *Coll, page int, servingHost string, depth int) map[s
 // never mentioned by embedding (an embedded same-host copy would be used as is).
 func (w *World) Normalize() {
 	fix := func(e *Edge) {
-		if e != nil && e.To != nil && e.To.Gone != "" && (e.Mode == "embed" || e.Mode == "anon") && e.Lie == "" {
+		if e != nil && e.To != nil && e.To.Gone != "" && (e.Mode == "embed" || e.Mode == "anon") && e.Lie == "" && !e.Keep {
 			e.Mode = "url"
 		}
 	}
@@ -393,6 +396,13 @@ func (w *World) Materialize() {
 	defer w.mu.Unlock()
 	colls := map[*Coll]bool{}
 	for _, n := range w.Nodes {
+		// the collections of a node live at addresses of their own and are served whatever happened to the node's home document
+		if n.Replies != nil {
+			colls[n.Replies] = true
+		}
+		if n.Outbox != nil {
+			colls[n.Outbox] = true
+		}
 		switch n.Gone {
 		case "404":
 			continue
